@@ -123,6 +123,9 @@ func (s *Session) Reset() {
 	if s.delivery != nil {
 		s.abort(s.msgCtx)
 	}
+	// The refusal remembered for a deferred MAIL FROM belongs to the
+	// transaction that ends here.
+	s.deliveryErr = nil
 	s.mailReceived = false
 	s.endp.Log.DebugMsg("reset")
 }
